@@ -19,10 +19,10 @@ CHECKS.update({
             "Every member of the enumerated sub-products (canonical 1-2 state MDP alphabets, near-tie family, sign-symmetric anchor family, block packs; 5 solver/test rows; gamma, eps; encodings, scales, initial values/policies, batch sizes, shuffle seeds) is a real solve() on a fresh solver; the returned policy is evaluated exactly by linear solve and compared with exact v* against the stated a-priori bounds. Largest observed error/bound ratio per bound is reported so vacuity is visible.",
             "Small-scope: MDPs with <=3 states (plus block-packed unions up to ~1200 states); gamma/eps grids; single device (C03 covers devices). PI bounds asserted only when the returned (V,pi) pass the evaluation stopping test.", "6 C01"),
     "C02": ("boxmc", "bounded-exhaustive enumeration of Bellman-backup rows (row alphabets R(A,E), block-packed M2d/M2s x W^2) through the real sweep kernel and solve(1)",
-            "Every row of the row alphabets (all probability patterns x rewards x successor values, 3.3e5 rows for R(2,2)) and every MDP of M2d/M2s with every value vector in W^2 goes through the real sweep (private kernel with injected vector, and public solve(1) from initial_value) and real policy extraction; compared with the numpy backup; monotonicity, contraction and shift are checked on the real outputs for all ordered pairs.",
+            "Every row of the row alphabets (all probability patterns x rewards x successor values, 3.3e5 rows for R(2,2); also with zero-probability events whose reported successor lies outside the state space) and every MDP of M2d/M2s with every value vector in W^2 goes through the real sweep (private kernel with injected vector, and public solve(1) from initial_value) and real policy extraction; compared with the numpy backup; monotonicity, contraction and shift are checked on the real outputs for all ordered pairs.",
             "Dyadic alphabets; float64; single device; any maximiser accepted for the policy.", "6 C02"),
     "C08": ("histmc", "explicit-state exploration of all solve(k) histories (k in {1,2,3,5}, depth 2/3) on real solvers against a reference state machine, with state-merge (composability) assertions",
-            "All 4^d histories per instance are executed on fresh real solvers (VI span/max_diff, RVI, periodic VI, semi-async fixed order); after every call iteration count, values (= n reference backups), gain, greedy policy and the stop/continue decision are compared with a reference machine implementing the documented rule; histories reaching the same iteration must hold the same state. An all-dyadic family puts the measure exactly at the threshold to decide '<' versus '<='.",
+            "All 4^d histories per instance are executed on fresh real solvers (VI span/max_diff, RVI, periodic VI, semi-async fixed order); after every call iteration count, values (= n reference backups), gain, greedy policy and the stop/continue decision are compared with a reference machine implementing the documented rule; histories reaching the same iteration must hold the same state. An all-dyadic family puts the measure exactly at the threshold to decide '<' versus '<='; instances with gamma = 1 - 2^-20 keep the measure between the documented threshold and epsilon.",
             "Instances with reference stopping iteration 1..9; borderline decisions (within 1e-9 relative, except exact dyadic ties) are skipped and counted.", "6 C08"),
 })
 
@@ -64,13 +64,13 @@ CHECKS.update({
             "For every solver (VI, PI with and without evaluation reset, RVI, periodic with and without history clearing, semi-async fixed order) and every interruption iteration the first segment runs with checkpointing in a fresh process, a second fresh process rebuilds the solver with restore() (no 64-bit switch pre-set) or load_checkpoint() and continues; final iteration, policy, values, gain, value history and index must equal the uninterrupted run without checkpointing (1e-12 relative; bit-identical chains are counted). Checkpointing on/off product and shuffled semi-async error bound are included.",
             "Instances converge in 4..22 iterations (Forest S=6, Mgen(9), De Moor, Hendrix); k=N chains (already converged) are recorded, not asserted.", "6 C09"),
     "C10": ("histmc", "exhaustive enumeration of (written directory, step in {latest, each retained}, every subset of the four restore overrides) in restorer processes against the writer's own recorded states",
-            "20+ directories written by fresh interpreters (5 solvers x 4 shipped problems incl. tuple-valued Mirjalili parameters, one- and two-solve histories, configuration-less problems) are restored under all 16 override subsets at 'latest' (each followed by solve(2) to observe later saves), each retained explicit step under override subsets, and frequency->0; restored state is compared bit for bit with what the writer recorded at that save request, the configuration field-wise, the original tree by hash; five error paths.",
+            "20+ directories written by fresh interpreters (5 solvers x 4 shipped problems incl. tuple-valued Mirjalili parameters, one- and two-solve histories, configuration-less problems) are restored under all 16 override subsets at 'latest' (each followed by solve(2) to observe later saves), each retained explicit step under override subsets, and frequency->0; restored state (through solver_state and through the solver's raw attributes) is compared bit for bit with what the writer recorded at that save request, including a single-precision-configured writer, the configuration field-wise, the original tree by hash; five error paths.",
             "Writer records solver_state through a wrapper around the public save(); the written tree is reset to pristine before each restore. D8 (policy dropped for VI-family second-call checkpoints) is a known finding.", "6 C10"),
     "C11": ("crashmc", "crash-point enumeration over every prefix (plus torn last writes) of strace-recorded write histories, exhaustive commit-gate schedules with buffer poisoning, and SIGKILL conformance runs",
             "(a) every prefix of every recorded system-call write history (7 histories quick incl. a two-epoch restore history, a crash-restore-crash history recorded from a rebuilt crash state, periodic VI saving at every iteration and a semi-async history / 42 x 2 recordings thorough; ~2800 / ~45000 crash states incl. torn variants) is rebuilt at a same-length sibling path and recovered: restore must fail iff no step was committed, otherwise return the newest committed iteration with exactly that iteration's state (independent numpy trajectory) and continue to the uninterrupted result; (b) every placement of each background commit relative to the solver's iteration boundaries is driven through a gate on Orbax's finalize, with mutable buffers poisoned after save() returns, and every (solver progress, writer progress) directory snapshot is recovered; (c) full-log replay must reproduce the real tree byte for byte and really SIGKILLed traced runs are recovered under the same oracle.",
             "Process kill (page cache survives); cross-thread reorderings are not synthesised; Orbax 0.12.4 internals are gated from outside (AtomicRenameTemporaryPath.finalize).", "6 C11"),
     "C12": ("histmc", "explicit-state exploration of operation histories {solve(k), restore, restore(new dir), restore(max_checkpoints=1)} to depth 2/3 x (frequency, retention, sync/async, convergence iteration) against a reference directory model",
-            "Every history of the alphabet is executed on the real solver - value iteration in full, and the other four solvers (each has its own save loop) at depth 2 - and on a reference model of cadence and retention; after every operation the step listing of every directory, the iteration, presence of config.yaml and presence of the last iteration of the call are compared; at the end of every history each retained step is restored and compared with the independently computed state of that iteration; frequency 0 must create nothing; configuration-less problems via load_checkpoint.",
+            "Every history of the alphabet is executed on the real solver - value iteration in full, and the other four solvers (each has its own save loop) at depth 2 - and on a reference model of cadence and retention; after every operation the step listing of every directory, the iteration, presence of config.yaml and presence of the last iteration of the call are compared; at the end of every history each retained step is restored and compared with the independently computed state of that iteration (value iteration, relative, semi-async and periodic VI); frequency 0 must create nothing; configuration-less problems via load_checkpoint.",
             "Restores are 'latest' only; Forest VI instances converging at N=5,6,7.", "6 C12"),
     "C20": ("boxmc", "bounded-exhaustive enumeration of solver classes x construction routes x boundary parameter values, rejection list, and construction orders in fresh interpreters",
             "gamma x epsilon fully crossed per solver (incl. gamma 0 and 1, thresholds across 1/10/100) and every other parameter one at a time are constructed by three routes (instance+kwargs, configuration object alone, reloaded config.yaml) and solved; routes must agree; every documented invalid value is rejected by instance and by config with ValueError/TypeError; in fresh interpreters three construction orders are compared after exactly 3 sweeps to separate precision from stopping. The README order (problem before 64-bit mode) is known finding D4.",
